@@ -14,13 +14,39 @@ package symgo
 
 import (
 	"go/token"
+
+	"golang.org/x/tools/go/ssa"
 )
+
+var c06HarnessFuncs = map[*ssa.Program]map[string]*ssa.Function{}
+
+// c06HarnessFunc finds a function with a body by bare name in any loaded package (the harness
+// of the package under test).
+func c06HarnessFunc(i *interpreter, name string) *ssa.Function {
+	m := c06HarnessFuncs[i.prog]
+	if m == nil {
+		m = map[string]*ssa.Function{}
+		c06HarnessFuncs[i.prog] = m
+	}
+	if f, ok := m[name]; ok {
+		return f
+	}
+	var found *ssa.Function
+	for _, p := range i.prog.AllPackages() {
+		if f := p.Func(name); f != nil && f.Blocks != nil {
+			found = f
+			break
+		}
+	}
+	m[name] = found
+	return found
+}
 
 func c06Redirect(ext, harness string) {
 	prev := externals[ext]
 	var self externalFn
 	self = func(fr *frame, args []value) value {
-		if h := harnessFunc(fr.i, harness); h != nil {
+		if h := c06HarnessFunc(fr.i, harness); h != nil {
 			stub(ext + " (cut: model function " + harness + " of the harness)")
 			return call(fr.i, fr, token.NoPos, h, args)
 		}
